@@ -1,0 +1,92 @@
+//! Verification hooks (compiled only with `--cfg ast_grep_verif`).
+//!
+//! `emit` appends one JSON line per event to the file named by `AST_GREP_VERIF_TRACE`; the global
+//! sequence number is taken under the same mutex as the write, so the order of lines is the order
+//! in which events happened. `sched_point` perturbs thread interleavings when `AST_GREP_VERIF_SCHED`
+//! holds a seed. Hooks only observe (or delay); they never change a value the program computes.
+use std::fs::{File, OpenOptions};
+use std::io::Write;
+use std::sync::atomic::{AtomicU64, Ordering};
+use std::sync::{Mutex, OnceLock};
+
+struct Sink {
+  file: Option<File>,
+  seq: u64,
+}
+
+fn sink() -> &'static Mutex<Sink> {
+  static SINK: OnceLock<Mutex<Sink>> = OnceLock::new();
+  SINK.get_or_init(|| {
+    let file = std::env::var("AST_GREP_VERIF_TRACE")
+      .ok()
+      .and_then(|p| OpenOptions::new().create(true).append(true).open(p).ok());
+    Mutex::new(Sink { file, seq: 0 })
+  })
+}
+
+fn thread_no() -> u64 {
+  static NEXT: AtomicU64 = AtomicU64::new(1);
+  thread_local! { static ID: u64 = NEXT.fetch_add(1, Ordering::Relaxed); }
+  ID.with(|i| *i)
+}
+
+/// `fields` is the inside of a JSON object without braces, e.g. `"path":"a.js","n":3` (may be empty).
+pub fn emit(event: &str, fields: &str) {
+  let mut s = match sink().lock() {
+    Ok(s) => s,
+    Err(p) => p.into_inner(),
+  };
+  if s.file.is_none() {
+    return;
+  }
+  s.seq += 1;
+  let seq = s.seq;
+  let tid = thread_no();
+  let sep = if fields.is_empty() { "" } else { "," };
+  let line = format!("{{\"seq\":{seq},\"tid\":{tid},\"ev\":\"{event}\"{sep}{fields}}}\n");
+  if let Some(f) = s.file.as_mut() {
+    let _ = f.write_all(line.as_bytes());
+  }
+}
+
+/// JSON string literal for `s`.
+pub fn quote(s: &str) -> String {
+  let mut out = String::with_capacity(s.len() + 2);
+  out.push('"');
+  for c in s.chars() {
+    match c {
+      '"' => out.push_str("\\\""),
+      '\\' => out.push_str("\\\\"),
+      '\n' => out.push_str("\\n"),
+      '\r' => out.push_str("\\r"),
+      '\t' => out.push_str("\\t"),
+      c if (c as u32) < 0x20 => out.push_str(&format!("\\u{:04x}", c as u32)),
+      c => out.push(c),
+    }
+  }
+  out.push('"');
+  out
+}
+
+/// Seeded perturbation of the schedule at a named point: yields or sleeps a few microseconds.
+pub fn sched_point(name: &str) {
+  static SEED: OnceLock<Option<u64>> = OnceLock::new();
+  static COUNTER: AtomicU64 = AtomicU64::new(0);
+  let Some(seed) = *SEED.get_or_init(|| {
+    std::env::var("AST_GREP_VERIF_SCHED")
+      .ok()
+      .and_then(|s| s.parse().ok())
+  }) else {
+    return;
+  };
+  let n = COUNTER.fetch_add(1, Ordering::Relaxed);
+  let mut x = seed ^ n.wrapping_mul(0x9E37_79B9_7F4A_7C15) ^ (name.len() as u64) ^ thread_no().rotate_left(17);
+  x ^= x >> 12;
+  x ^= x << 25;
+  x ^= x >> 27;
+  match x % 4 {
+    0 => {}
+    1 => std::thread::yield_now(),
+    _ => std::thread::sleep(std::time::Duration::from_micros(x % 300)),
+  }
+}
